@@ -238,6 +238,22 @@ def run(ctx):
                 return
 
     drive.for_each_case(ctx, 'handmade', max(10, ctx.budget // 20), body3, gen=lambda c, r: Ty('int'))
+
+    # container subclasses with validating constructors, dataclasses inheriting a validating hook (see pv/special.py)
+    from .. import special
+    cases = special.container_subclass_cases() + special.inherited_hook_cases()
+    monitors.install()
+    for idx, (desc, ST, vals) in enumerate(cases):
+        if idx % ctx.nshards != ctx.shard or not ctx.want('special', idx):
+            continue
+        drive.current.update(sub='special', case=idx, tskel='special:' + desc.split('(')[0], tdesc=desc)
+        for v in vals:
+            drive.current['vdesc'] = short(v, 200)
+            out = observe(env.from_data, v, ST)
+            ctx.count('special_target_calls')
+            ctx.count(f"boundary_{out.kind}")
+            if out.kind == 'escape' and isinstance(out.exc, RuntimeError) and 'bug of the' in str(out.exc):
+                ctx.violation('no-internal-RuntimeError', 'special', idx, {'type': desc, 'value': short(v, 300), 'pane': out.brief()}, mech='converter-bug-RuntimeError')
     monitors.observers.clear()
 
 
